@@ -501,7 +501,9 @@ def pp_deep(fn_ast, call):
 
 
 def branch_assign(ev, body):
-    """follow the if/else-if chain of compareNodeSets for a concrete theRHSType; returns the value assigned to theResult"""
+    """follow the if/else-if chain of compareNodeSets for a concrete type of the other operand; returns the value assigned to the local the function returns"""
+    result_ids = {strip_casts(x['e']).get('id') for x in walk(body) if x.get('k') == 'Return' and x.get('e') is not None and (strip_casts(x['e']) or {}).get('k') == 'Ref'
+                  and (strip_casts(x['e']) or {}).get('d') == 'local'}
     def go(s):
         k = s['k']
         if k == 'Compound':
@@ -522,7 +524,7 @@ def branch_assign(ev, body):
             return go(s['else']) if s.get('else') else None
         if k == 'Bin' and s['op'] == '=':
             l = strip_casts(s['lhs'])
-            if l.get('k') == 'Ref' and l.get('n') == 'theResult':
+            if l.get('k') == 'Ref' and l.get('id') in result_ids:
                 return s['rhs']
         return None
     return go(body)
